@@ -101,6 +101,11 @@ class _Canon(ast.NodeTransformer):
     def visit_Expr(self, node: ast.Expr):
         if isinstance(node.value, ast.Constant) and isinstance(node.value.value, str):
             return None  # docstring
+        v = node.value
+        if isinstance(v, ast.Call) and isinstance(v.func, ast.Attribute) and v.func.attr in ("debug", "info", "warning", "error", "exception", "critical", "log") \
+                and isinstance(v.func.value, ast.Name) and v.func.value.id in ("logger", "logging", "log", "_logger", "_log", "LOGGER") \
+                and not any(isinstance(x, (ast.Call, ast.NamedExpr, ast.Await, ast.Yield)) for a in list(v.args) + [k.value for k in v.keywords] for x in ast.walk(a)):
+            return None  # a log message (its arguments are plain loads): what the siblings report about themselves is no difference
         return self.generic_visit(node)
 
     def visit_Return(self, node: ast.Return):
